@@ -33,6 +33,34 @@
 (* The RNG is an abstract stream: (seed, sequence of draw requests since   *)
 (* the seed was set).                                                      *)
 (*                                                                         *)
+(* HISTORY SHAPES.  "All call histories of other matrices before the call" *)
+(* is not only a matter of WHICH matrices were seen but also of HOW they   *)
+(* were presented and of WHO else ran in the process.  A history is one of *)
+(*   hist : every call gets a newly built tensor (pres = "new");           *)
+(*   hbuf : every call gets THE SAME tensor object, rewritten in place     *)
+(*          between the calls (pres = "buf"; via = copy_ / mul_ by a power *)
+(*          of two / negation of a row / zero_ / nothing): a jacobian      *)
+(*          buffer that a training loop refills;                           *)
+(*   htmp : every call gets a short-lived temporary S[idx] of one shape    *)
+(*          (several widths up to 3 x 4100, tiles of the 3 x 5 bases) that *)
+(*          is released before the next one is built - the allocator hands *)
+(*          the same block out again (measured by the harness);            *)
+(*   hext : every call gets a new tensor object wrapping the same external *)
+(*          memory (torch.from_numpy of an array refilled by numpy): same  *)
+(*          address, version counter 0, other content - deterministically; *)
+(*   hoth : calls of OTHER aggregator instances (the same class with the   *)
+(*          same / other parameters - reg_eps, norm_eps, c, preference     *)
+(*          vector, leak, weights - and other classes with non-default     *)
+(*          parameters) on matrices of the same and of other shapes and    *)
+(*          dtypes precede the call (op = "other").                        *)
+(* None of this is state of the model: the value of a call is a function   *)
+(* of (kind, class, seed, stream position) - Memo is the single statement  *)
+(* - and the harness compares every call of every history shape with       *)
+(* history-free repeats: fresh instances on newly built tensors in a       *)
+(* process in which NO aggregator has run before (one new process per      *)
+(* reference), so that state shared by the instances of a process cannot   *)
+(* reach the reference.                                                    *)
+(*                                                                         *)
 (* Every terminal history is exported (SCN lines) with the expected        *)
 (* outcome of every call and is executed on real aggregator instances by   *)
 (* harness/checks/c11.py; TraceAggContract.tla validates histories         *)
@@ -57,9 +85,28 @@ CONSTANTS MaxCalls,     \* longest call history
 (*       and ConFIG raise a RuntimeError), but not about its being         *)
 (*       independent of earlier calls and leaving no trace for later ones  *)
 
-Kd(name, agg, a, b, pdt) == [name |-> name, agg |-> agg, a |-> a, b |-> b, pdt |-> pdt]
+(*   alt : 0 = the parameters of the binding's default column, 1 = EVERY    *)
+(*       constructor parameter takes its alternate value (AltScalars: reg_eps, *)
+(*       norm_eps, c, epsilon, max_iters; ParamEntry(.., 1) for the vectors):  *)
+(*       such kinds only occur in "hoth" histories, as the instance under      *)
+(*       observation and as the other instances running before it              *)
 
-Kinds == {
+Kd(name, agg, a, b, pdt)  == [name |-> name, agg |-> agg, a |-> a, b |-> b, pdt |-> pdt, alt |-> 0]
+KdA(name, agg, a, b, pdt) == [name |-> name, agg |-> agg, a |-> a, b |-> b, pdt |-> pdt, alt |-> 1]
+
+AltKinds == {
+    KdA("UPGradA", "UPGrad", 0, 0, "any"),        KdA("DualProjA", "DualProj", 0, 0, "any"),
+    KdA("CAGradA", "CAGrad", 0, 0, "any"),        KdA("MGDAA", "MGDA", 0, 0, "any"),
+    KdA("UPGradQ3d", "UPGrad", 3, 0, "f64"),      KdA("DualProjQ3d", "DualProj", 3, 0, "f64"),
+    KdA("AlignedMTLQ3d", "AlignedMTL", 3, 0, "f64"), KdA("ConFIGQ3d", "ConFIG", 3, 0, "f64"),
+    KdA("GradDropM3d", "GradDrop", 3, 0, "f64"),  KdA("ConstantQ3d", "Constant", 3, 0, "f64") }
+\* scalar constructor parameters of the alt = 1 kinds (exact rationals; defaults: reg_eps = norm_eps =
+\* 1e-4, CAGrad c = 1/2, MGDA epsilon = 1e-3, max_iters = 100).  2^-10 * s(3x5/gen) lies between the
+\* two norm_eps values, 1/4 >> 1e-4: an instance that picks up the other's value answers differently
+AltScalars == [reg_eps |-> <<1, 4>>, norm_eps |-> <<1, 100>>, cagrad_c |-> <<1, 4>>,
+               mgda_epsilon |-> <<1, 10>>, mgda_max_iters |-> 3]
+
+BaseKinds == {
     Kd("Mean", "Mean", 0, 0, "any"),              Kd("Sum", "Sum", 0, 0, "any"),
     Kd("MGDA", "MGDA", 0, 0, "any"),              Kd("PCGrad", "PCGrad", 0, 0, "any"),
     Kd("CAGrad", "CAGrad", 0, 0, "any"),          Kd("IMTLG", "IMTLG", 0, 0, "any"),
@@ -78,6 +125,7 @@ Kinds == {
     Kd("TM2", "TrimmedMean", 2, 0, "any"),
     Kd("Krum0_1", "Krum", 0, 1, "any"),           Kd("Krum1_2", "Krum", 1, 2, "any"),
     Kd("Krum0_5", "Krum", 0, 5, "any") }
+Kinds == BaseKinds \cup AltKinds
 
 Randomised(kind)   == kind.agg \in {"PCGrad", "GradDrop", "Random"}
 \* the classes the rejection clause of C11 names: "the weighted aggregators, GradDrop and
@@ -92,19 +140,24 @@ NormEpsKinds       == {"UPGrad", "DualProj", "CAGrad"}      \* homogeneous only 
 \* own round trip through float32 in EVERY entry: a representation of the parameter derived for one
 \* input dtype is distinguishable from the parameter itself.
 ParamAggs == {"Constant", "UPGrad", "DualProj", "AlignedMTL", "ConFIG", "GradDrop"}
-ParamEntry(agg, i) ==
-    CASE agg = "Constant" -> <<(IF i % 2 = 1 THEN 1 ELSE -1) * (i + 1), 7>>    \* 2/7, -3/7, 4/7, -5/7, 6/7
-      [] agg = "GradDrop" -> <<i, 7>>                                         \* leak in (0, 1)
-      [] OTHER            -> <<3 * i - 2, 11>>                                \* 1/11, 4/11, 7/11, 10/11, 13/11
+ParamEntry(agg, i, alt) ==
+    IF alt = 0
+    THEN CASE agg = "Constant" -> <<(IF i % 2 = 1 THEN 1 ELSE -1) * (i + 1), 7>>    \* 2/7, -3/7, 4/7, -5/7, 6/7
+           [] agg = "GradDrop" -> <<i, 7>>                                         \* leak in (0, 1)
+           [] OTHER            -> <<3 * i - 2, 11>>                                \* 1/11, 4/11, 7/11, 10/11, 13/11
+    ELSE CASE agg = "Constant" -> <<(IF i % 2 = 1 THEN -1 ELSE 1) * (i + 2), 13>>   \* -3/13, 4/13, -5/13, ...
+           [] agg = "GradDrop" -> <<6 - i, 13>>                                    \* 5/13, 4/13, 3/13, ...
+           [] OTHER            -> <<12 - 2 * i, 13>>                               \* 10/13, 8/13, 6/13, 4/13, 2/13
 ParamVec(kind) == IF kind.agg \in ParamAggs /\ kind.a > 0 /\ kind.pdt # "any"
-                  THEN [i \in 1..kind.a |-> ParamEntry(kind.agg, i)] ELSE <<>>
+                  THEN [i \in 1..kind.a |-> ParamEntry(kind.agg, i, kind.alt)] ELSE <<>>
 MaxParamLen == 5
 \* odd denominator that does not divide the numerator: in lowest terms the denominator is odd and > 1
-ParamNotDyadic == \A agg \in ParamAggs : \A i \in 1..MaxParamLen :
-                     LET q == ParamEntry(agg, i) IN
+ParamNotDyadic == \A agg \in ParamAggs : \A i \in 1..MaxParamLen : \A alt \in {0, 1} :
+                     LET q == ParamEntry(agg, i, alt) IN
                      /\ q[2] > 1 /\ q[2] % 2 = 1
                      /\ (IF q[1] < 0 THEN -q[1] ELSE q[1]) % q[2] # 0
                      /\ (agg = "GradDrop" => (0 < q[1] /\ q[1] < q[2]))
+                     /\ (alt = 1 => ParamEntry(agg, i, 0)[1] * q[2] # q[1] * ParamEntry(agg, i, 0)[2])
 ASSUME ParamNotDyadic
 HasParam(kind) == ParamVec(kind) # <<>>
 
@@ -136,9 +189,13 @@ Dup(sh) == LET J == Gen(sh)  m == sh[1]  n == sh[2] IN
            [i \in 1..m |-> IF i = 2 THEN J[1]
                            ELSE IF i = m /\ m >= 3 THEN [j \in 1..n |-> 0] ELSE J[i]]
 ZeroM(sh) == [i \in 1..sh[1] |-> [j \in 1..sh[2] |-> 0]]
+\* "neg": first row negated (what X[0].neg_() makes of "gen"); same singular values as "gen"
+Neg(sh) == LET J == Gen(sh) IN [i \in 1..sh[1] |-> IF i = 1 THEN [j \in 1..sh[2] |-> -J[1][j]] ELSE J[i]]
 
-Variants(sh) == IF sh[1] = 1 THEN {"gen", "zero"} ELSE {"gen", "dup", "zero"}
-Base(sh, v)  == CASE v = "gen" -> Gen(sh) [] v = "dup" -> Dup(sh) [] OTHER -> ZeroM(sh)
+Variants(sh) == IF sh[1] = 1 THEN {"gen", "zero"} ELSE {"gen", "dup", "zero"}      \* single calls
+NegShapes    == {<<3, 5>>}
+CatVariants(sh) == Variants(sh) \cup (IF sh \in NegShapes THEN {"neg"} ELSE {})     \* + histories
+Base(sh, v)  == CASE v = "gen" -> Gen(sh) [] v = "dup" -> Dup(sh) [] v = "neg" -> Neg(sh) [] OTHER -> ZeroM(sh)
 
 \* exact integer linear algebra on the Gramian: rank, trace, product of the non-zero eigenvalues
 IDot(u, v) == LET F[i \in 0..Len(u)] == IF i = 0 THEN 0 ELSE F[i - 1] + u[i] * v[i] IN F[Len(u)]
@@ -176,9 +233,9 @@ MaxDiag(G) == LET D == {G[i][i] : i \in 1..Len(G)} IN CHOOSE x \in D : \A y \in 
 Kap2(sh, v)  == IF v = "zero" THEN 1 ELSE IF sh[1] >= 4 \/ sh = <<3, 5>> THEN 5 ELSE 2
 KapU2(sh, v) == IF v = "zero" THEN 1 ELSE IF sh[1] >= 4 THEN 5 ELSE 3
 
-CatKeys == {<<sh, v>> : sh \in Shapes, v \in {"gen", "dup", "zero"}}
+CatKeys == {<<sh, v>> : sh \in Shapes, v \in {"gen", "dup", "zero", "neg"}}
 \* evaluated once by TLC (constant-level definition)
-Catalogue == [k \in {q \in CatKeys : q[2] \in Variants(q[1])} |->
+Catalogue == [k \in {q \in CatKeys : q[2] \in CatVariants(q[1])} |->
                 LET J == Base(k[1], k[2])  G == Gram(J)  r == RankG(G) IN
                 [J |-> J, rank |-> r, tr |-> TraceG(G), er |-> IF r = 0 THEN 1 ELSE PrincipalSum(G, r),
                  maxdiag |-> MaxDiag(G), kap2 |-> Kap2(k[1], k[2]), kapu2 |-> KapU2(k[1], k[2])]]
@@ -189,6 +246,8 @@ CatalogueSane ==
     /\ \A sh \in Shapes : Catalogue[<<sh, "zero">>].rank = 0
     /\ \A sh \in Shapes : sh[1] >= 2 => Catalogue[<<sh, "dup">>].rank < Min(sh[1], sh[2]) \/ sh[2] = 1
     /\ \A k \in DOMAIN Catalogue : Catalogue[k].er >= 1
+    /\ \A sh \in NegShapes : LET a == Catalogue[<<sh, "gen">>]  b == Catalogue[<<sh, "neg">>] IN
+                               a.rank = b.rank /\ a.tr = b.tr /\ a.er = b.er /\ a.J # b.J
 ASSUME CatalogueSane
 
 -----------------------------------------------------------------------------
@@ -197,11 +256,22 @@ ASSUME CatalogueSane
 (*   var     : catalogue variant of the finite base ("na" if not 2-d)      *)
 (*   content : "finite" | "nan" | "pinf" | "ninf"   (one entry replaced)   *)
 (*   pos     : "first" | "last"  position of the non-finite entry          *)
-(*   dtype   : "f32" | "f64"                                               *)
+(*   dtype   : "f32" | "f64"; histories also "bf16" | "f16" (LowPrec: the  *)
+(*             statement's scale ranges name float32 and float64 only, so  *)
+(*             what such a call returns is not demanded - today Mean, Sum, *)
+(*             MGDA, PCGrad, IMTLG, GradDrop, Random, TrimmedMean answer   *)
+(*             in the input's dtype, the others hit a torch kernel that    *)
+(*             does not exist for the dtype - but it must do what a fresh  *)
+(*             instance does and leave no trace for later calls)           *)
 (*   e       : scale exponent, tensor = 2^e * base                         *)
+(*   w       : the tensor is the base tiled w times side by side           *)
+(*             (dims[2] * w columns; Gramian = w * Gramian of the base)    *)
 
 Cl(dims, var, content, pos, dtype, e) ==
-    [dims |-> dims, var |-> var, content |-> content, pos |-> pos, dtype |-> dtype, e |-> e]
+    [dims |-> dims, var |-> var, content |-> content, pos |-> pos, dtype |-> dtype, e |-> e, w |-> 1]
+ClW(dims, var, dtype, w) ==
+    [dims |-> dims, var |-> var, content |-> "finite", pos |-> "first", dtype |-> dtype, e |-> 0, w |-> w]
+LowPrec(c) == c.dtype \in {"bf16", "f16"}
 
 \* scales of the statement: 1e-12 .. 1e15 (float32), 1e-100 .. 1e100 (float64); the largest
 \* entry of a base matrix is 2:  2^-39 = 1.8e-12, 2 * 2^48 = 5.6e14, 2^-332 = 1.1e-100,
@@ -210,7 +280,8 @@ Exps(dt) == IF dt = "f32" THEN {-39, -26, -13, -10, 0, 10, 30, 48}
             ELSE {-332, -100, -39, -13, -10, 0, 48, 100, 331}
 DTypes == {"f32", "f64"}
 
-IsCatalogued(c) == /\ Len(c.dims) = 2 /\ <<c.dims, c.var>> \in DOMAIN Catalogue /\ c.e \in Exps(c.dtype)
+IsCatalogued(c) == /\ Len(c.dims) = 2 /\ <<c.dims, c.var>> \in DOMAIN Catalogue /\ c.w = 1
+                   /\ c.dtype \in DTypes /\ c.e \in Exps(c.dtype)
 
 SingleFinite == UNION {{Cl(sh, v, "finite", "first", dt, e) : v \in Variants(sh), e \in Exps(dt)} :
                           sh \in Shapes, dt \in DTypes}
@@ -221,7 +292,10 @@ SingleAlphabet == SingleFinite \cup SingleNon2d \cup SingleBad
 
 \* history alphabet: the same values in another dtype, the same shape with other content, the same
 \* content at another scale, other shapes, and rejected inputs in between
-HistSmall == { Cl(<<3, 5>>, "gen", "finite", "first", "f64", 0),
+\* + an all-zero matrix (and "dup" has a zero row) before regular ones, a low-precision matrix
+HistSmall == { Cl(<<3, 5>>, "zero", "finite", "first", "f64", 0),
+               Cl(<<3, 5>>, "gen", "finite", "first", "bf16", 0),
+               Cl(<<3, 5>>, "gen", "finite", "first", "f64", 0),
                Cl(<<3, 5>>, "gen", "finite", "first", "f32", 0),
                Cl(<<3, 5>>, "dup", "finite", "first", "f64", 0),
                Cl(<<3, 5>>, "gen", "finite", "first", "f64", 48),
@@ -231,15 +305,77 @@ HistSmall == { Cl(<<3, 5>>, "gen", "finite", "first", "f64", 0),
 HistFull  == HistSmall \cup
              { Cl(<<4, 3>>, "gen", "finite", "first", "f32", 0),
                Cl(<<5, 5>>, "dup", "finite", "first", "f32", 10),
-               Cl(<<3, 2>>, "gen", "finite", "first", "f64", 0) }
+               Cl(<<3, 2>>, "gen", "finite", "first", "f64", 0),
+               Cl(<<3, 5>>, "gen", "finite", "first", "f16", 0),
+               Cl(<<4, 3>>, "zero", "finite", "first", "f32", 0) }
 HistAlphabet == IF HistLevel = 1 THEN HistSmall ELSE HistFull
+
+\* hbuf: contents of ONE tensor object (all of one shape and dtype - SameSlot below - so that each can be
+\* written over the previous one in place): other rows, a negated row, a power-of-two multiple, zeros,
+\* a nan in between
+Buf64 == { Cl(<<3, 5>>, "gen", "finite", "first", "f64", 0),  Cl(<<3, 5>>, "dup", "finite", "first", "f64", 0),
+           Cl(<<3, 5>>, "neg", "finite", "first", "f64", 0),  Cl(<<3, 5>>, "zero", "finite", "first", "f64", 0),
+           Cl(<<3, 5>>, "gen", "finite", "first", "f64", 48), Cl(<<3, 5>>, "gen", "nan", "last", "f64", 0) }
+Buf32 == { Cl(<<3, 5>>, "gen", "finite", "first", "f32", 0),  Cl(<<3, 5>>, "dup", "finite", "first", "f32", 0),
+           Cl(<<3, 5>>, "neg", "finite", "first", "f32", 0),  Cl(<<3, 5>>, "gen", "finite", "first", "f32", -10) }
+Buf55 == { Cl(<<5, 5>>, "gen", "finite", "first", "f64", 0),  Cl(<<5, 5>>, "dup", "finite", "first", "f64", 0),
+           Cl(<<5, 5>>, "zero", "finite", "first", "f64", 0) }
+BufAlphabet == IF HistLevel = 1 THEN Buf64 ELSE Buf64 \cup Buf32 \cup Buf55
+\* how the harness turns content b of the buffer into content c, in place
+ViaOf(b, c) ==
+    IF b = c THEN "same"                                                    \* untouched: the same object again
+    ELSE IF c.var = "zero" THEN "zero_"
+    ELSE IF b.content = "finite" /\ c.content = "finite" /\ b.var = c.var /\ b.e # c.e THEN "mul_"
+    ELSE IF b.content = "finite" /\ c.content = "finite" /\ b.e = c.e /\ {b.var, c.var} = {"gen", "neg"} THEN "neg_row"
+    ELSE "copy_"
+
+\* htmp: temporaries of one shape; widths 65, 320, 4100 (16385 in the thorough tier)
+TmpWidths == IF HistLevel = 1 THEN {13, 64, 820} ELSE {13, 64, 820, 3277}
+TmpVars   == IF HistLevel = 1 THEN {"gen", "neg"} ELSE {"gen", "neg", "dup"}
+TmpAlphabet == {ClW(<<3, 5>>, v, "f64", w) : v \in TmpVars, w \in TmpWidths}
+               \cup {ClW(<<3, 5>>, v, "f32", 820) : v \in TmpVars}
+\* hext: re-wrapped external memory; the address is the same by construction, any width will do
+ExtAlphabet == {ClW(<<3, 5>>, v, "f64", w) : v \in {"gen", "neg", "dup"}, w \in {1, 64}}
+               \cup (IF HistLevel = 1 THEN {} ELSE {ClW(<<3, 5>>, v, "f32", 1) : v \in {"gen", "neg", "dup"}})
+
+\* hoth: what the other instances see, and what the instance under observation sees afterwards
+\* (2^-10 * 3x5/gen: largest singular value between the default and the alternate norm_eps)
+OthClasses  == { Cl(<<3, 5>>, "gen", "finite", "first", "f64", 0), Cl(<<3, 5>>, "dup", "finite", "first", "f64", 0),
+                 Cl(<<3, 5>>, "gen", "finite", "first", "f32", 0) }
+               \cup (IF HistLevel = 1 THEN {} ELSE {Cl(<<5, 5>>, "gen", "finite", "first", "f64", 0)})
+OthMain     == { Cl(<<3, 5>>, "gen", "finite", "first", "f64", 0), Cl(<<3, 5>>, "gen", "finite", "first", "f64", -10) }
+               \cup (IF HistLevel = 1 THEN {} ELSE {Cl(<<3, 5>>, "gen", "finite", "first", "f32", 0),
+                                                    Cl(<<5, 5>>, "gen", "finite", "first", "f64", 0)})
+\* classes whose source files share helper modules (anchors of C11: _gramian_utils / _dual_cone_utils,
+\* _pref_vector_utils / constant.py, the RNG users, the row selectors, the plain combinations)
+Families == { {"UPGrad", "DualProj", "CAGrad"}, {"UPGrad", "DualProj", "AlignedMTL", "ConFIG", "Constant"},
+              {"PCGrad", "GradDrop", "Random"}, {"Krum", "TrimmedMean"}, {"Mean", "Sum", "MGDA", "IMTLG"} }
+\* the other instances: every kind of the same class (the same parameters included: a twin), and the
+\* kinds with alternate parameters - of the same family in the quick tier, all of them in the thorough one
+OtherTab == [kd \in Kinds |-> {k \in Kinds : k.agg = kd.agg}
+                  \cup {k \in AltKinds : HistLevel >= 2 \/ \E F \in Families : kd.agg \in F /\ k.agg \in F}]
+OtherKinds(kind) == OtherTab[kind]
 
 \* single calls: a kind with a tensor parameter is used with inputs of the parameter's dtype;
 \* histories: with both dtypes (every history alphabet holds the same matrix in float32 and in
 \* float64, so that float32 -> float64 and float64 -> float32 orders both occur on one instance)
 DtypeOK(kind, c) == kind.pdt = "any" \/ kind.pdt = c.dtype
 Cross(kind, c)   == ~DtypeOK(kind, c)
-Alphabet(kind, mode) == IF mode = "single" THEN {c \in SingleAlphabet : DtypeOK(kind, c)} ELSE HistAlphabet
+\* measured on the unchanged tree: these answer in the dtype of the INPUT when the parameter vector has
+\* the other float dtype (UPGrad / DualProj re-type the projected weights, GradDrop the leak per call), so
+\* "maps every finite matrix ... to a finite vector in the dtype of the input" is demanded of them there too
+CrossSupported == {"UPGrad", "DualProj", "GradDrop"}
+\* single calls: the parameter's dtype; for the kinds that support the other one also the finite matrices
+\* at scale exponent 0 in it
+SingleOK(kind, c) == DtypeOK(kind, c) \/ (kind.agg \in CrossSupported /\ Len(c.dims) = 2 /\ c.content = "finite" /\ c.e = 0)
+SingleTab == [k \in BaseKinds |-> {c \in SingleAlphabet : SingleOK(k, c)}]       \* evaluated once
+Alphabet(kind, mode) ==
+    CASE mode = "single" -> SingleTab[kind]
+      [] mode = "hist" -> HistAlphabet
+      [] mode = "hbuf" -> BufAlphabet
+      [] mode = "htmp" -> TmpAlphabet
+      [] mode = "hext" -> ExtAlphabet
+      [] OTHER -> OthMain
 
 -----------------------------------------------------------------------------
 (* Property layer: the contract table of C11                               *)
@@ -248,24 +384,28 @@ Contract(kind, c) ==
     IF Len(c.dims) # 2 THEN (IF Validating(kind) THEN "ValueError" ELSE "unspecified")
     ELSE IF c.content # "finite" THEN (IF Validating(kind) THEN "ValueError" ELSE "unspecified")
     ELSE IF ~RowOK(kind, c.dims[1]) THEN "ValueError"
-    ELSE IF Cross(kind, c) THEN "unspecified"     \* outcome not demanded; independence of history is
+    ELSE IF LowPrec(c) THEN "unspecified"         \* outcome not demanded; independence of history is
+    ELSE IF Cross(kind, c) /\ kind.agg \notin CrossSupported THEN "unspecified"
     ELSE "vector"       \* finite vector, one entry per column, dtype of the input
 
 \* a finite matrix meeting the row requirement; presented in the other dtype than the parameter's
 Admissible(kind, c)      == Len(c.dims) = 2 /\ c.content = "finite" /\ RowOK(kind, c.dims[1])
 CrossAdmissible(kind, c) == Cross(kind, c) /\ Admissible(kind, c)
+Open(kind, c)  == LowPrec(c) \/ (Cross(kind, c) /\ kind.agg \notin CrossSupported)   \* outcome left open
 
-ExpectN(c)     == c.dims[2]          \* only used when Contract = "vector"
+ExpectN(c)     == c.dims[2] * c.w    \* only used when Contract = "vector"
 ExpectDtype(c) == c.dtype
 
 -----------------------------------------------------------------------------
 (* Implementation-shaped layer: order of the checks of today's code        *)
 
+LowPrecAggs == {"Mean", "Sum", "MGDA", "PCGrad", "IMTLG", "GradDrop", "Random", "TrimmedMean"}   \* measured (CPU)
 ImplWeighted(kind, c) ==        \* _WeightedAggregator.forward, then the weighting's own check
     IF Len(c.dims) # 2 THEN "VE_matrix"
     ELSE IF c.content # "finite" THEN "VE_finite"
     ELSE IF ~RowOK(kind, c.dims[1]) THEN "VE_rows"
     ELSE IF Cross(kind, c) /\ kind.agg \in {"Constant", "AlignedMTL"} THEN "Err_other"   \* J.T @ weights
+    ELSE IF LowPrec(c) /\ kind.agg \notin LowPrecAggs THEN "Err_other"                   \* no svd / eigh / cdist kernel
     ELSE "vector"                   \* UPGrad / DualProj re-type the preference vector per call
 ImplRowsFirst(kind, c) ==       \* GradDrop, TrimmedMean: matrix, rows, finite
     IF Len(c.dims) # 2 THEN "VE_matrix"
@@ -276,7 +416,7 @@ ImplConFIG(kind, c) ==          \* only the preference vector's row check, on sh
     IF kind.a > 0 /\ Len(c.dims) = 0 THEN "Err_other"
     ELSE IF kind.a > 0 /\ c.dims[1] # kind.a THEN "VE_rows"
     ELSE IF Len(c.dims) # 2 THEN "Err_other"
-    ELSE IF Cross(kind, c) THEN "Err_other"
+    ELSE IF Cross(kind, c) \/ LowPrec(c) THEN "Err_other"
     ELSE IF c.content # "finite" THEN "vector_nonfinite"
     ELSE "vector"
 ImplOutcome(kind, c) ==
@@ -295,7 +435,7 @@ Conforms(contract, impl) ==
 Draws(kind, c) ==
     IF ImplOutcome(kind, c) # "vector" THEN <<>>
     ELSE CASE kind.agg = "PCGrad"   -> [i \in 1..c.dims[1] |-> <<"randperm", c.dims[1], "i64">>]
-           [] kind.agg = "GradDrop" -> << <<"rand", c.dims[2], c.dtype>> >>
+           [] kind.agg = "GradDrop" -> << <<"rand", c.dims[2] * c.w, c.dtype>> >>
            [] kind.agg = "Random"   -> << <<"randn", c.dims[1], c.dtype>> >>
            [] OTHER -> <<>>
 
@@ -337,21 +477,31 @@ HomK(kind, c) ==
       [] OTHER -> 1                                            \* exact under power-of-two scaling
 
 -----------------------------------------------------------------------------
-(* State machine of one aggregator object                                  *)
+(* State machine of one aggregator object (and of the process it lives in) *)
 
-VARIABLES kind,         \* the constructed aggregator
-          mode,         \* "single" (one call over the full alphabet) | "hist" (histories)
+VARIABLES kind,         \* the constructed aggregator (the instance under observation)
+          mode,         \* "single" (one call over the full alphabet) | history shape "hist" | "hbuf" |
+                        \* "htmp" | "hext" | "hoth" (see the head of the module)
           rng,          \* [seed, stream, calls]: abstract global RNG (draw requests and number of
-                        \* calls of this instance since the seed was set)
-          steps,        \* history: sequence of [op, s, c, rngBefore, expect, impl]
-          ncalls,
+                        \* calls of any instance since the seed was set)
+          steps,        \* history: sequence of [op, s, ok, c, pres, via, rngRaw, rngBefore, expect, impl]
+          ncalls,       \* number of "call" and "other" steps
           inputsIntact  \* no call ever wrote to an input tensor
 
 vars == <<kind, mode, rng, steps, ncalls, inputsIntact>>
 
+Modes   == {"single", "hist", "hbuf", "htmp", "hext", "hoth"}
 Seeds   == IF NSeeds = 1 THEN {"s0"} ELSE {"s0", "s1"}
 NoClass == Cl(<<>>, "na", "finite", "first", "f64", 0)
-Limit   == IF mode = "single" THEN 1 ELSE MaxCalls
+\* hist: MaxCalls calls over the core classes, 2 calls once an all-zero or low-precision matrix is involved;
+\* hoth: one other instance, then the call; rewritten buffer / temporaries / re-wrapped memory: 2 calls in
+\* the quick tier, MaxCalls in the thorough one
+HistExtra(c) == LowPrec(c) \/ c.var = "zero"
+Limit   == CASE mode = "single" -> 1
+             [] mode = "hist" -> (IF \E i \in DOMAIN steps : steps[i].op = "call" /\ HistExtra(steps[i].c)
+                                 THEN 2 ELSE MaxCalls)
+             [] mode = "hoth" -> 2
+             [] OTHER -> (IF HistLevel = 1 THEN 2 ELSE MaxCalls)
 
 \* the quick tier explores histories for one representative of every aggregator class and parameter
 \* style (single calls: all kinds)
@@ -361,103 +511,161 @@ QuickHistKinds == {"Mean", "Sum", "MGDA", "PCGrad", "CAGrad", "IMTLG", "UPGrad",
                    "Constant3s", "DualProjP3s",         \* float32 parameter, float64 calls in between
                    "TM1", "Krum0_1"}
 Init == /\ kind \in Kinds
-        /\ mode \in {"single", "hist"}
-        /\ (mode = "hist" => (HistLevel >= 2 \/ kind.name \in QuickHistKinds))
+        /\ mode \in Modes
+        /\ (mode # "hoth" => kind.alt = 0)        \* homogeneity side conditions assume the default norm_eps
+        /\ (mode # "single" => (HistLevel >= 2 \/ kind.name \in QuickHistKinds \/ kind.alt = 1))
         /\ rng = [seed |-> "s0", stream |-> <<>>, calls |-> 0]     \* the harness seeds before constructing
         /\ steps = <<>> /\ ncalls = 0 /\ inputsIntact = TRUE
 
 \* abstract value of a call: a function of (kind, class, seed, stream position) and nothing else
 RngKey(k, r) == IF Randomised(k) THEN r ELSE [seed |-> "det", stream |-> <<>>, calls |-> 0]
 \* the property itself only promises reproducibility right after a seed ("equal seeds give equal
-\* results": no call of this instance since the seed) and independence of earlier calls for
+\* results": no call of any instance since the seed) and independence of earlier calls for
 \* deterministic aggregators; at later stream positions the implementation layer's draw accounting
 \* (Draws; "a rejected call draws nothing") is used, and a mismatch there is only DRIFT
 MemoLevel(k, r) == IF ~Randomised(k) \/ r.calls = 0 THEN "property" ELSE "impl"
 
-CallStep(k, r, c) == [op |-> "call", s |-> "-", c |-> c, rngBefore |-> RngKey(k, r),
-                      expect |-> Contract(k, c), impl |-> ImplOutcome(k, c)]
+CallStep(k, r, c, pres, via) ==
+    [op |-> "call", s |-> "-", ok |-> k, c |-> c, pres |-> pres, via |-> via, rngRaw |-> r,
+     rngBefore |-> RngKey(k, r), expect |-> Contract(k, c), impl |-> ImplOutcome(k, c)]
 RngAfterCall(k, r, c) == [seed |-> r.seed, stream |-> r.stream \o Draws(k, c), calls |-> r.calls + 1]
 
-Call(c) == /\ ncalls < Limit
-           /\ c \in Alphabet(kind, mode)
-           /\ steps' = Append(steps, CallStep(kind, rng, c))
-           /\ rng' = RngAfterCall(kind, rng, c)
-           /\ ncalls' = ncalls + 1
-           /\ UNCHANGED <<kind, mode, inputsIntact>>       \* in particular: the input is not written
+CallIdx       == {i \in DOMAIN steps : steps[i].op = "call"}
+LastCallClass == steps[CHOOSE i \in CallIdx : \A q \in CallIdx : q <= i].c
+\* hbuf / htmp / hext: every call of a history has the shape, width and dtype of the first one (one
+\* buffer; temporaries of one size; one block of external memory)
+Slot(c)     == <<c.dims, c.w, c.dtype>>
+SameSlot(c) == \A i \in CallIdx : Slot(steps[i].c) = Slot(c)
 
-Seed(s) == /\ mode = "hist" /\ Randomised(kind) /\ ncalls < Limit
-           /\ (HistLevel >= 2 \/ ncalls = Limit - 1)        \* quick tier: re-seed only before the last call
-           /\ (IF steps = <<>> THEN TRUE ELSE steps[Len(steps)].op = "call")   \* no two seeds in a row
-           /\ steps' = Append(steps, [op |-> "seed", s |-> s, c |-> NoClass,
-                                      rngBefore |-> RngKey(kind, rng), expect |-> "-", impl |-> "-"])
+CallGen(c, pres, via) ==
+    /\ ncalls < Limit
+    /\ steps' = Append(steps, CallStep(kind, rng, c, pres, via))
+    /\ rng' = RngAfterCall(kind, rng, c)
+    /\ ncalls' = ncalls + 1
+    /\ UNCHANGED <<kind, mode, inputsIntact>>       \* in particular: the input is not written
+
+Call(c) == /\ (mode = "hist" /\ HistExtra(c) => ncalls < 2)        \* not as the third call after two core ones
+           /\ CASE mode \in {"single", "hist", "hoth"} -> CallGen(c, "new", "-")
+                [] mode = "hbuf" -> SameSlot(c) /\ CallGen(c, "buf", IF CallIdx = {} THEN "alloc" ELSE ViaOf(LastCallClass, c))
+                [] mode = "htmp" -> SameSlot(c) /\ CallGen(c, "tmp", "-")
+                [] OTHER         -> SameSlot(c) /\ CallGen(c, "ext", IF CallIdx = {} THEN "alloc" ELSE "numpy")
+
+\* another instance (constructed for the occasion) aggregates a matrix; the history ends with a call of
+\* the instance under observation
+Other(k, c) == /\ mode = "hoth" /\ ncalls < Limit - 1
+               /\ steps' = Append(steps, [op |-> "other", s |-> "-", ok |-> k, c |-> c, pres |-> "new", via |-> "-",
+                                          rngRaw |-> rng, rngBefore |-> RngKey(k, rng),
+                                          expect |-> Contract(k, c), impl |-> ImplOutcome(k, c)])
+               /\ rng' = RngAfterCall(k, rng, c)
+               /\ ncalls' = ncalls + 1
+               /\ UNCHANGED <<kind, mode, inputsIntact>>
+
+Seed(s) == /\ mode # "single" /\ Randomised(kind) /\ ncalls < Limit
+           /\ ((HistLevel >= 2 /\ mode = "hist") \/ ncalls = Limit - 1)   \* else: re-seed only before the last call
+           /\ (IF steps = <<>> THEN TRUE ELSE steps[Len(steps)].op # "seed")   \* no two seeds in a row
+           /\ steps' = Append(steps, [op |-> "seed", s |-> s, ok |-> kind, c |-> NoClass, pres |-> "-", via |-> "-",
+                                      rngRaw |-> rng, rngBefore |-> RngKey(kind, rng), expect |-> "-", impl |-> "-"])
            /\ rng' = [seed |-> s, stream |-> <<>>, calls |-> 0]
            /\ UNCHANGED <<kind, mode, ncalls, inputsIntact>>
 
-CallAny == \E c \in Alphabet(kind, mode) : Call(c)
-SeedAny == \E s \in Seeds : Seed(s)
-Next == CallAny \/ SeedAny
+CallAny  == \E c \in Alphabet(kind, mode) : Call(c)
+SeedAny  == \E s \in Seeds : Seed(s)
+OtherAny == mode = "hoth" /\ \E k \in OtherKinds(kind), c \in OthClasses : Other(k, c)
+Next == CallAny \/ SeedAny \/ OtherAny
 Spec == Init /\ [][Next]_vars
 
 -----------------------------------------------------------------------------
 (* Properties checked by TLC                                               *)
 
-TypeOK == /\ kind \in Kinds /\ mode \in {"single", "hist"} /\ ncalls \in 0..MaxCalls
+TypeOK == /\ kind \in Kinds /\ mode \in Modes /\ ncalls \in 0..MaxCalls
           /\ rng.seed \in Seeds /\ inputsIntact \in BOOLEAN
 
+IsCall(i) == steps[i].op = "call"
+
 \* totality: the contract decides every (kind, class); a vector is demanded exactly for finite
-\* matrices meeting the row requirement
-ContractTotal == \A i \in DOMAIN steps : steps[i].op = "call" =>
+\* matrices meeting the row requirement in float32 / float64 (for a kind with a parameter vector of the
+\* other dtype: where today's code supports the combination)
+ContractTotal == \A i \in DOMAIN steps : IsCall(i) =>
                     /\ steps[i].expect \in {"ValueError", "vector", "unspecified"}
                     /\ (steps[i].expect = "vector") <=>
-                         (Admissible(kind, steps[i].c) /\ ~Cross(kind, steps[i].c))
-                    /\ (steps[i].expect = "unspecified" => (~Validating(kind) \/ Cross(kind, steps[i].c)))
-                    \* the rejection clause does not depend on the dtype of the parameter
-                    /\ (Validating(kind) /\ steps[i].expect = "unspecified") => CrossAdmissible(kind, steps[i].c)
-                    /\ CrossAdmissible(kind, steps[i].c) => steps[i].expect = "unspecified"
+                         (Admissible(kind, steps[i].c) /\ ~Open(kind, steps[i].c))
+                    /\ (steps[i].expect = "unspecified" => (~Validating(kind) \/ Open(kind, steps[i].c)))
+                    \* the rejection clause does not depend on the dtype of the matrix or of the parameter
+                    /\ (Validating(kind) /\ steps[i].expect = "unspecified") =>
+                          (Admissible(kind, steps[i].c) /\ Open(kind, steps[i].c))
+                    /\ (Admissible(kind, steps[i].c) /\ Open(kind, steps[i].c)) => steps[i].expect = "unspecified"
+                    /\ (CrossAdmissible(kind, steps[i].c) /\ kind.agg \in CrossSupported /\ ~LowPrec(steps[i].c))
+                          => steps[i].expect = "vector"
 
 \* today's order of checks conforms to the contract
-ImplConforms == \A i \in DOMAIN steps : steps[i].op = "call" => Conforms(steps[i].expect, steps[i].impl)
+ImplConforms == \A i \in DOMAIN steps : IsCall(i) => Conforms(steps[i].expect, steps[i].impl)
 
 InputNeverWritten == inputsIntact
 NoWrite == [][inputsIntact' = inputsIntact]_vars
 
-\* memo: same kind, class, seed and stream position => same abstract value, whatever happened in
-\* between; a deterministic aggregator ignores the RNG altogether
+\* MEMO - the single statement of "its result does not depend on earlier calls, equal seeds give equal
+\* results": same kind, class, seed and stream position => same abstract value (and the same demand on
+\* it), whatever happened before - which matrices were seen, in which dtype, through which tensor
+\* objects (new / the same one rewritten in place / temporaries / re-wrapped memory), and whichever
+\* other instances ran in the process; a deterministic aggregator ignores the RNG altogether.
+\* The harness realises the right-hand side by history-free repeats in pristine processes.
 Val(i) == <<kind.name, steps[i].c, steps[i].rngBefore>>
 Memo == \A i, j \in DOMAIN steps :
-           (steps[i].op = "call" /\ steps[j].op = "call" /\ steps[i].c = steps[j].c
-            /\ steps[i].rngBefore = steps[j].rngBefore) => Val(i) = Val(j)
+           (IsCall(i) /\ IsCall(j) /\ steps[i].c = steps[j].c /\ steps[i].rngBefore = steps[j].rngBefore)
+           => (Val(i) = Val(j) /\ steps[i].expect = steps[j].expect /\ steps[i].impl = steps[j].impl)
 \* mixed-dtype histories: the dtype of the calls in between is not part of the value either (the
 \* parameter vector belongs to the kind); OtherDtypeBefore(i) is exported so that the harness can
 \* tell which memo comparisons were made across dtypes
-OtherDtypeBefore(i) == \E j \in 1..(i - 1) : steps[j].op = "call" /\ steps[j].c.dtype # steps[i].c.dtype
+OtherDtypeBefore(i) == \E j \in 1..(i - 1) : IsCall(j) /\ steps[j].c.dtype # steps[i].c.dtype
                                               /\ Admissible(kind, steps[j].c)
 MemoAcrossDtypes == \A i, j \in DOMAIN steps :
-           (steps[i].op = "call" /\ steps[j].op = "call" /\ steps[i].c = steps[j].c
+           (IsCall(i) /\ IsCall(j) /\ steps[i].c = steps[j].c
             /\ steps[i].rngBefore = steps[j].rngBefore /\ OtherDtypeBefore(i) # OtherDtypeBefore(j))
            => (Val(i) = Val(j) /\ steps[i].expect = steps[j].expect /\ steps[i].impl = steps[j].impl)
-DeterministicIgnoresRng == ~Randomised(kind) => \A i \in DOMAIN steps : steps[i].rngBefore.seed = "det"
-\* a rejected call does not advance the stream; a seed resets it
+\* what the exported flags of a call mean (the harness counts its comparisons by them)
+RewrittenBefore(i) == steps[i].pres = "buf" /\ steps[i].via \notin {"alloc", "same"}
+OtherBefore(i)     == \E j \in 1..(i - 1) : steps[j].op = "other"
+OtherParamsBefore(i) == \E j \in 1..(i - 1) : steps[j].op = "other" /\ steps[j].ok.agg = kind.agg /\ steps[j].ok # kind
+ZeroRowBefore(i)   == \E j \in 1..(i - 1) : IsCall(j) /\ Admissible(kind, steps[j].c) /\ steps[j].c.var \in {"dup", "zero"}
+DeterministicIgnoresRng == ~Randomised(kind) => \A i \in DOMAIN steps : IsCall(i) => steps[i].rngBefore.seed = "det"
+\* a rejected call (of any instance) does not advance the stream; a seed resets it
 StreamAccounting == \A i \in DOMAIN steps :
-    /\ (steps[i].op = "seed" /\ i < Len(steps) /\ Randomised(kind)) =>
-          steps[i + 1].rngBefore = [seed |-> steps[i].s, stream |-> <<>>, calls |-> 0]
-    /\ (steps[i].op = "call" /\ i < Len(steps) /\ steps[i].impl # "vector") =>
-          /\ steps[i + 1].rngBefore.stream = steps[i].rngBefore.stream
-          /\ steps[i + 1].rngBefore.seed = steps[i].rngBefore.seed
+    /\ (steps[i].op = "seed" /\ i < Len(steps)) =>
+          steps[i + 1].rngRaw = [seed |-> steps[i].s, stream |-> <<>>, calls |-> 0]
+    /\ (steps[i].op # "seed" /\ i < Len(steps) /\ steps[i].impl # "vector") =>
+          /\ steps[i + 1].rngRaw.stream = steps[i].rngRaw.stream
+          /\ steps[i + 1].rngRaw.seed = steps[i].rngRaw.seed
 
 \* the property-level memo comparison (fresh instance right after the same seed) is only ever
 \* demanded for a call that directly follows a seeding (or the construction), at stream position 0
 PropertyMemoMeansFreshSeed == \A i \in DOMAIN steps :
-    (steps[i].op = "call" /\ Randomised(kind) /\ MemoLevel(kind, steps[i].rngBefore) = "property") =>
+    (IsCall(i) /\ Randomised(kind) /\ MemoLevel(kind, steps[i].rngBefore) = "property") =>
         /\ steps[i].rngBefore.stream = <<>>
         /\ (i = 1 \/ steps[i - 1].op = "seed")
 
+\* the history shapes are what the harness takes them for
+HistoryShapes ==
+    /\ \A i \in DOMAIN steps : IsCall(i) =>
+          /\ steps[i].pres = (CASE mode = "hbuf" -> "buf" [] mode = "htmp" -> "tmp" [] mode = "hext" -> "ext" [] OTHER -> "new")
+          /\ (mode \in {"hbuf", "htmp", "hext"} => \A j \in DOMAIN steps : IsCall(j) => Slot(steps[j].c) = Slot(steps[i].c))
+          /\ (steps[i].via = "mul_" => \E j \in 1..(i - 1) : IsCall(j) /\ steps[j].c.var = steps[i].c.var
+                                                               /\ steps[j].c.e # steps[i].c.e)
+          /\ (steps[i].via = "same" => \E j \in 1..(i - 1) : IsCall(j) /\ steps[j].c = steps[i].c)
+          /\ (steps[i].pres # "buf" => steps[i].via \in {"-", "alloc", "numpy"})
+          /\ (steps[i].c.w # 1 => mode \in {"htmp", "hext"})
+          /\ (LowPrec(steps[i].c) => mode = "hist")
+    /\ \A i \in DOMAIN steps : steps[i].op = "other" =>
+          /\ mode = "hoth" /\ steps[i].ok \in OtherKinds(kind) /\ (i < Len(steps) \/ ncalls < Limit)
+    /\ (mode # "hoth" => kind.alt = 0)
+    /\ (ncalls >= Limit /\ mode = "hoth" => steps[Len(steps)].op = "call")
+
 \* homogeneity is only ever demanded where the model can decide the side conditions
 HomWellDefined == \A i \in DOMAIN steps :
-    (mode = "single" /\ steps[i].op = "call" /\ steps[i].expect = "vector" /\ IsCatalogued(steps[i].c)) =>
+    (mode = "single" /\ IsCall(i) /\ steps[i].expect = "vector" /\ IsCatalogued(steps[i].c)) =>
         /\ HomDemand(kind, steps[i].c) \in {"demand", "not_above_norm_eps", "rank_ambiguous"}
         /\ (steps[i].c.e = 0 /\ steps[i].c.var # "zero" => NormEpsSide(steps[i].c) = "above")
         /\ HomK(kind, steps[i].c) >= 0
+        /\ kind.alt = 0
 
 -----------------------------------------------------------------------------
 (* Scenario export (specification -> code)                                 *)
@@ -465,16 +673,20 @@ HomWellDefined == \A i \in DOMAIN steps :
 StepOut(i) ==
     LET st == steps[i] IN
     IF st.op = "seed" THEN [op |-> "seed", s |-> st.s]
+    ELSE IF st.op = "other" THEN [op |-> "other", k |-> st.ok, param |-> ParamVec(st.ok), c |-> st.c, impl |-> st.impl]
     ELSE LET c == st.c  cat == IsCatalogued(c) /\ st.expect = "vector" IN
          [op |-> "call", c |-> c, expect |-> st.expect, impl |-> st.impl,
+          pres |-> st.pres, via |-> st.via,
           n |-> IF st.expect = "vector" THEN ExpectN(c) ELSE -1,
           rng |-> st.rngBefore, memo |-> MemoLevel(kind, st.rngBefore),
           cross |-> CrossAdmissible(kind, c), xdt |-> OtherDtypeBefore(i),
+          rewritten |-> RewrittenBefore(i), oth |-> OtherBefore(i), othpar |-> OtherParamsBefore(i),
+          zerobefore |-> ZeroRowBefore(i),
           hom |-> IF mode = "single" /\ cat THEN HomDemand(kind, c) ELSE "na",
           homK |-> IF mode = "single" /\ cat THEN HomK(kind, c) ELSE 0]
 
 Scenario == [mode |-> mode, kind |-> kind, param |-> ParamVec(kind), steps |-> [i \in 1..Len(steps) |-> StepOut(i)]]
-Export == (ncalls = Limit) => PrintT(<<"SCN", ToJson(Scenario)>>)
+Export == (ncalls >= Limit) => PrintT(<<"SCN", ToJson(Scenario)>>)
 
 \* the catalogue is exported once (evaluated when TLC checks the assumptions)
 RECURSIVE CatSeq(_)
@@ -483,5 +695,7 @@ CatSeq(Ks) == IF Ks = {} THEN <<>>
                    <<[dims |-> k[1], var |-> k[2], info |-> Catalogue[k]]>> \o CatSeq(Ks \ {k})
 ASSUME PrintT(<<"CAT", ToJson(CatSeq(DOMAIN Catalogue))>>)
 \* so is the parameter table (the C -> S driver constructs kinds of its own with it)
-ASSUME PrintT(<<"PAR", ToJson([agg \in ParamAggs |-> [i \in 1..MaxParamLen |-> ParamEntry(agg, i)]])>>)
+ASSUME PrintT(<<"PAR", ToJson([agg \in ParamAggs |-> [i \in 1..MaxParamLen |-> ParamEntry(agg, i, 0)]])>>)
+ASSUME PrintT(<<"PARALT", ToJson([agg \in ParamAggs |-> [i \in 1..MaxParamLen |-> ParamEntry(agg, i, 1)]])>>)
+ASSUME PrintT(<<"ALT", ToJson(AltScalars)>>)
 =============================================================================
